@@ -139,6 +139,45 @@ pub fn eval_ctl_checks_ext<F, S, const D: usize>(
     );
 }
 
+/// Builds a `CtlCheckVarsTarget` (its fields are crate-private) from explicit targets.
+pub fn ctl_check_vars_target<F: RichField + Extendable<D>, const D: usize>(
+    helper_columns: Vec<plonky2::iop::ext_target::ExtensionTarget<D>>,
+    local_z: plonky2::iop::ext_target::ExtensionTarget<D>,
+    next_z: plonky2::iop::ext_target::ExtensionTarget<D>,
+    challenges: GrandProductChallenge<plonky2::iop::target::Target>,
+    columns: Vec<Vec<Column<F>>>,
+    filter: Vec<Filter<F>>,
+) -> crate::cross_table_lookup::CtlCheckVarsTarget<F, D> {
+    crate::cross_table_lookup::CtlCheckVarsTarget {
+        helper_columns,
+        local_z,
+        next_z,
+        challenges,
+        columns,
+        filter,
+    }
+}
+
+/// `cross_table_lookup::eval_cross_table_lookup_checks_circuit`.
+pub fn eval_ctl_checks_circuit<F, S, const D: usize>(
+    builder: &mut plonky2::plonk::circuit_builder::CircuitBuilder<F, D>,
+    vars: &S::EvaluationFrameTarget,
+    ctl_vars: &[crate::cross_table_lookup::CtlCheckVarsTarget<F, D>],
+    consumer: &mut crate::constraint_consumer::RecursiveConstraintConsumer<F, D>,
+    constraint_degree: usize,
+) where
+    F: RichField + Extendable<D>,
+    S: Stark<F, D>,
+{
+    crate::cross_table_lookup::eval_cross_table_lookup_checks_circuit::<S, F, D>(
+        builder,
+        vars,
+        ctl_vars,
+        consumer,
+        constraint_degree,
+    );
+}
+
 static LENIENT_QUOTIENT: AtomicBool = AtomicBool::new(false);
 
 /// Prover knob: when set, the quotient polynomial is truncated to `degree * quotient_degree_factor`
